@@ -43,11 +43,12 @@ const Tok Toks[] = {
     {"0", true, 0}, {"1", true, 1}, {"127", true, 127}, {"255", true, 255}, {"256", true, 256}, {"-1", true, -1},
     {"4294967297", true, Two32 + 1},                                 // 2^32+1: wraps to 1 in a 32-bit int
     {"x", false, 0}, {"", false, 0},
+    {"1000", true, 1000},                                            // its first three digits alone would be in range
     // thorough only:
     {"99999999999", true, (__int128)99999999999LL}, {"4294967423", true, Two32 + 127},
     {"18446744073709551617", true, ((__int128)1 << 64) + 1},
 };
-const int NToksQuick = 9, NToksThorough = 12;
+const int NToksQuick = 10, NToksThorough = 13;
 
 std::string addrText(const Ip::Address &a)
 {
@@ -98,7 +99,13 @@ void checkIpPort(const int idx[6], int sanity, bool force, bool preset)
         if (!allInRange) {
             bool octetsBad = false, portBad = false;
             for (int i = 0; i < 6; ++i) { const Tok &t = Toks[idx[i]]; if (!t.number || t.value < 0 || t.value > 255) (i < 4 ? octetsBad : portBad) = true; }
-            if (wraps)
+            bool onlySixthBad = true;
+            for (int i = 0; i < 5; ++i) { const Tok &t = Toks[idx[i]]; if (!t.number || t.value < 0 || t.value > 255) onlySixthBad = false; }
+            const Tok &last = Toks[idx[5]];
+            if (onlySixthBad && last.number && last.value > 255 && strlen(last.text) > 3 && atoi(std::string(last.text, 3).c_str()) <= 255)
+                failCapped("ParseIpPort:sixth-component-longer-than-3-digits-accepted-as-its-first-3-digits",
+                           "accepted although p2 is out of range: only its first three digits were read, result " + addrText(addr) + cfg);
+            else if (wraps)
                 failCapped("ParseIpPort:component-above-2^32-wraps-into-range", "accepted although a component is out of range (it wrapped modulo 2^32), result " + addrText(addr) + cfg);
             else if (portBad)
                 failCapped("ParseIpPort:port-component-out-of-range-accepted", "accepted although p1 or p2 is not in 0..255, result " + addrText(addr) + cfg);
